@@ -4,10 +4,10 @@
 pub use vcore::fuzz::fuzz_main;
 use vcore::{FuzzTarget, FuzzVerdict};
 
-pub const FUZZ_JOBS: u32 = 8;
+pub const FUZZ_JOBS: u32 = 16;
 /// measured (ASan build, one core): identity_decode ~2800, envelope ~2000 exec/s
-pub const IDENTITY_DECODE_RUNS_PER_JOB: u64 = 500_000;
-pub const ENVELOPE_RUNS_PER_JOB: u64 = 400_000;
+pub const IDENTITY_DECODE_RUNS_PER_JOB: u64 = 2_000_000;
+pub const ENVELOPE_RUNS_PER_JOB: u64 = 1_600_000;
 
 pub const IDENTITY_DECODE: FuzzTarget = FuzzTarget {
     name: "identity_decode",
